@@ -1,18 +1,17 @@
-\* non-vacuity: BuildEndpointPolicyTree as it was before the fix (method map found by a Lookup of the new URL)
-\* must be refuted
+\* thorough: every set of <= 3 declarations over patterns with <= 1 path segment (+ "/*"), repaired code
 CONSTANTS
   MaxBody = 1
-  MaxDecl = 2
+  MaxDecl = 3
   MaxUrl = 2
-  ReuseOnLookup = TRUE
+  ReuseOnLookup = FALSE
   FabricatedNorm = FALSE
   RejectCollision = TRUE
   EmptyParam = FALSE
   WildHostCheck = TRUE
   KF_Shadow = TRUE
   Source = "all"
-  NChunks = 8
-  EmitPrefix = ""
+  NChunks = 32
+  EmitPrefix = "k_"
 SPECIFICATION Spec
 INVARIANTS Accepted OrderIndependent OneReading
 CHECK_DEADLOCK FALSE
